@@ -118,7 +118,11 @@ func errorsHandled(r *Run) {
 				if kind == "" {
 					return
 				}
-				k := fnName(fn) + "|" + calleeName(c.Common())
+				calleeKey := calleeName(c.Common())
+				if g := staticCallee(c.Common()); g != nil && isReleaseHelper(g) {
+					calleeKey = "p9p.delRefAction" // the release helper, whatever it is called
+				}
+				k := fnName(fn) + "|" + calleeKey
 				why, ok := reviewedDrops[k]
 				if !ok {
 					// the same drop moved into an unexported helper that only the reviewed function calls
@@ -134,7 +138,7 @@ func errorsHandled(r *Run) {
 							for caller.Parent() != nil {
 								caller = caller.Parent()
 							}
-							w2, ok2 := reviewedDrops[fnName(caller)+"|"+calleeName(c.Common())]
+							w2, ok2 := reviewedDrops[fnName(caller)+"|"+calleeKey]
 							if !ok2 {
 								all = false
 							}
@@ -188,6 +192,19 @@ func errorGatesSuccess(r *Run, fn *ssa.Function, rule string) int {
 		e := errResult(c)
 		if e == nil || len(referrers(e)) == 0 {
 			return
+		}
+		// a call that also returns a flag (`stop, err := ch.interrupted(ctx)`) reports through the flag: its error is
+		// the value to hand back when the flag is set, not the indicator of failure
+		if tup, ok := c.Type().(*types.Tuple); ok {
+			hasFlag := false
+			for i := 0; i < tup.Len(); i++ {
+				if b, ok := tup.At(i).Type().Underlying().(*types.Basic); ok && b.Kind() == types.Bool {
+					hasFlag = true
+				}
+			}
+			if hasFlag {
+				return
+			}
 		}
 		// reviewed: arming an I/O deadline is best effort — the failure is logged and the transfer proceeds without one
 		switch calleeName(&c.Call) {
@@ -312,4 +329,31 @@ func errorGatesSuccess(r *Run, fn *ssa.Function, rule string) int {
 		}
 	})
 	return n
+}
+
+// isReleaseHelper: the session's release helper by what it does, not by name: it releases the entry stored in a fid
+// (Dirent.Clunk or Dirent.Remove on X.Ent) and then clears it (X.Ent = nil).
+func isReleaseHelper(g *ssa.Function) bool {
+	if g.Blocks == nil || g.Pkg == nil || g.Pkg.Pkg.Name() != "p9p" {
+		return false
+	}
+	clunk, remove, clears := false, false, false
+	eachInstr(g, func(in ssa.Instruction) {
+		switch x := in.(type) {
+		case *ssa.Call:
+			if x.Call.IsInvoke() && isP9P(x.Call.Value.Type(), "Dirent") {
+				switch x.Call.Method.Name() {
+				case "Clunk":
+					clunk = true
+				case "Remove":
+					remove = true
+				}
+			}
+		case *ssa.Store:
+			if f, ok := x.Addr.(*ssa.FieldAddr); ok && fieldName(f.X.Type(), f.Field) == "Ent" && isNilConst(x.Val) {
+				clears = true
+			}
+		}
+	})
+	return clunk && remove && clears
 }
